@@ -6,7 +6,7 @@ import random
 import kanirun
 from common import (EXIT_INCONCLUSIVE, EXIT_OK, EXIT_VIOLATION, is_failure, load_known_findings, log,
                     replay_batch, write_replay_file)
-from registry import HARNESSES
+import gen
 
 STD_STUBS = [
     "stub: core::slice::memchr::{memchr,memrchr} -> naive byte loops (equivalent)",
@@ -53,7 +53,7 @@ def report_known_kani(prop, ev):
 
 
 def select(prop, tier, seed):
-    hs = [h for h in HARNESSES.get(prop, []) if tier == "thorough" or h.get("tier", "quick") == "quick"]
+    hs = [h for h in gen.harnesses_by_prop().get(prop, []) if tier == "thorough" or h.get("tier", "quick") == "quick"]
     rnd = random.Random(seed)
     hs = list(hs)
     rnd.shuffle(hs)  # VERIF_SEED only changes scheduling order; verdicts are seed independent
